@@ -22,6 +22,7 @@ TYPES = {
     "sstr": ("&'static str", '""', '"st"', '"su"', None),
     "i64": ("i64", "0i64", "-9i64", "77i64", None),
     "u16": ("u16", "0u16", "513u16", "2u16", None),
+    "usize": ("usize", "0usize", "3usize", "9usize", None),
     "char": ("char", "'\\0'", "'q'", "'r'", None),
 }
 # instantiations of generic parameters used by drivers
@@ -55,6 +56,33 @@ def rs_str(cps):
     return "".join(out)
 
 
+def lit_str(cps, form=0):
+    """a string literal of an ATTRIBUTE in one of several source forms with the same value: 0 escapes for everything outside
+    printable ASCII, 1 raw string, 2 the characters themselves, 3 \\x / \\u{..} escapes even for printable ASCII"""
+    s = "".join(chr(c) for c in cps)
+    plain = all(c >= 32 and c != 127 for c in cps)
+    if form == 1 and plain:
+        n = 0
+        while ('"' + "#" * n) in s:
+            n += 1
+        if n == 0 and "\\" not in s and '"' not in s and len(s) % 2:
+            return rs_str(cps)                    # nothing would differ from the plain form; keep some of these plain
+        return "r" + "#" * n + '"' + s + '"' + "#" * n
+    if form == 2 and plain:
+        return '"' + s.replace("\\", "\\\\").replace('"', '\\"') + '"'
+    if form == 3 and cps:
+        out = ['"']
+        for k, c in enumerate(cps):
+            if k == 0 and c < 128:
+                out.append("\\x%02x" % c)
+            elif k == len(cps) - 1 and k > 0:
+                out.append("\\u{%04X}" % c)
+            else:
+                out.append(rs_str([c])[1:-1])
+        return "".join(out) + '"'
+    return rs_str(cps)
+
+
 def variant(ident, kind="unit", fields=None, ser=(), ts=None, dis=False, default=False, transp=False, aci=2,
             dwith="", msg=None, dmsg=None, docs=(), props=(), disc=None, discx="", acif=0):
     """Build a variant record.  Strings are given as python str and stored as code points."""
@@ -75,9 +103,16 @@ def enum(did, variants, style="none", prefix=None, aci=False, phf=False, perr=Fa
     for k, v in enumerate(variants):
         if "order" not in v and (did + k) % 3:
             v["order"] = did * 31 + k + 1
-    d = dict(id=did, name=name or ("E%d" % did), namecp=cp(name or ("E%d" % did)), style=style, prefix=[] if prefix is None else [cp(prefix)], aci=aci,
+        if "litform" not in v:
+            v["litform"] = (did * 7 + k) % 5 % 4        # how the variant's string literals are written in the source
+    # every fourth definition of a corpus carries the SAME type name (each lives in its own module): a derive must not carry
+    # anything over from one expansion to the next
+    name = name or ("Shared" if did % 4 == 0 and did > 0 else "E%d" % did)
+    d = dict(id=did, name=name, namecp=cp(name), style=style, prefix=[] if prefix is None else [cp(prefix)], aci=aci,
              phf=phf, perr=perr, cis=cis, generics=generics, repr=repr_, crate=crate, split=split,
              variants=list(variants))
+    if did % 3 == 1:
+        d["eorder"] = did * 17 + 3          # the enum-level items are written in another order
     d.update(extra)
     return d
 
@@ -90,10 +125,11 @@ def _field_ty(f):
 def variant_attr_items(v):
     """the list of items inside #[strum(...)] for a variant, in a fixed order"""
     it = []
+    lf = v.get("litform", 0)
     for s in v["ser"]:
-        it.append("serialize = %s" % rs_str(s))
+        it.append("serialize = %s" % lit_str(s, lf))
     if v["ts"]:
-        it.append("to_string = %s" % rs_str(v["ts"][0]))
+        it.append("to_string = %s" % lit_str(v["ts"][0], lf))
     if v["dis"]:
         it.append("disabled")
     if v["def"]:
@@ -107,9 +143,9 @@ def variant_attr_items(v):
     elif v["aci"] == 0:
         it.append("ascii_case_insensitive = false")
     if v["msg"]:
-        it.append("message = %s" % rs_str(v["msg"][0]))
+        it.append("message = %s" % lit_str(v["msg"][0], lf))
     if v["dmsg"]:
-        it.append("detailed_message = %s" % rs_str(v["dmsg"][0]))
+        it.append("detailed_message = %s" % lit_str(v["dmsg"][0], lf))
     groups = {}
     for p in v["props"]:
         groups.setdefault(p["grp"], []).append(p)
@@ -197,6 +233,9 @@ def enum_attr_items(E, use=("style", "prefix", "aci", "phf", "perr", "cis", "cra
         it.append("const_into_str")
     if "crate" in use and E.get("crate", "none") != "none":
         it.append('crate = "%s"' % E["crate"])
+    if E.get("eorder"):
+        import random as _r
+        _r.Random(E["eorder"]).shuffle(it)
     return it
 
 
@@ -223,7 +262,27 @@ def print_enum(E, derives, std_derives=("Debug", "Clone", "PartialEq"), strum_pa
     for v in E["variants"]:
         lines += print_variant(v, E.get("split"))
     lines.append("}")
-    return "\n".join(lines)
+    text = "\n".join(lines)
+    if E.get("via_macro"):
+        text = wrap_in_macro(text, E["name"])
+    return text
+
+
+def wrap_in_macro(text, name):
+    """the same item, declared through a macro_rules! helper; paths the user passes to strum (parse_err_fn / parse_err_ty) arrive
+    as macro arguments, i.e. with the caller's syntax context"""
+    import re
+    args, params = [], []
+    for kw, frag in (("parse_err_fn", "path"), ("parse_err_ty", "ty")):
+        m = re.search(kw + r" = ([^,\]\)]+(?:<[^>]*>)?)", text)
+        if m:
+            var = "$" + kw
+            text = text.replace(m.group(0), "%s = %s" % (kw, var))
+            params.append("%s:%s" % (var, frag))
+            args.append(m.group(1).strip())
+    body = "\n".join("        " + l for l in text.splitlines())
+    return ("macro_rules! declare_%s {\n    (%s) => {\n%s\n    };\n}\ndeclare_%s!(%s);"
+            % (name.lower(), ", ".join(params), body, name.lower(), ", ".join(args)))
 
 
 def inst(E):
